@@ -752,10 +752,10 @@ class Interp:
         if isinstance(e, ast.UnaryOp):
             if isinstance(e.op, ast.Not):
                 return Const(not self.truth(self.eval(e.operand, env), e.operand))
-            if isinstance(e.op, ast.USub):
+            if isinstance(e.op, (ast.USub, ast.UAdd)):
                 v = self.eval(e.operand, env)
-                if isinstance(v, Const) and isinstance(v.v, int):
-                    return Const(-v.v)
+                if isinstance(v, Const) and isinstance(v.v, (int, float)) and not isinstance(v.v, bool):
+                    return Const(-v.v if isinstance(e.op, ast.USub) else v.v)
             raise Unsupported(e, "unary operator")
         if isinstance(e, ast.BinOp):
             return self.binop(self.eval(e.left, env), e.op, self.eval(e.right, env), e)
@@ -870,6 +870,19 @@ class Interp:
                     return Const(a.v // b.v)
                 if isinstance(op, ast.Mod):
                     return Const(a.v % b.v)
+            except ZeroDivisionError:
+                raise AbstractRaise("ZeroDivisionError", node)
+        if isinstance(op, ast.Mod) and isinstance(a, Const) and isinstance(a.v, str):
+            vals = b.items if isinstance(b, TupleV) else [b]
+            if all(isinstance(x, Const) for x in vals):
+                try:
+                    return Const(a.v % (tuple(x.v for x in vals) if isinstance(b, TupleV) else vals[0].v))
+                except (TypeError, ValueError) as ex:
+                    raise AbstractRaise(type(ex).__name__, node, detail=str(ex))
+        if isinstance(op, ast.Pow) and isinstance(a, Const) and isinstance(b, Const) and all(
+                isinstance(x.v, (int, float)) and not isinstance(x.v, bool) for x in (a, b)):
+            try:
+                return Const(a.v ** b.v)
             except ZeroDivisionError:
                 raise AbstractRaise("ZeroDivisionError", node)
         if isinstance(a, SetObj) and isinstance(b, SetObj):
@@ -1602,6 +1615,34 @@ class Interp:
             if name == "values" and not args:
                 return ListObj(list(obj.entries.values()))
             raise Unsupported(node, "dict method %s" % name)
+        if isinstance(obj, Const) and isinstance(obj.v, str) and not kwargs and name in (
+                "join", "split", "rsplit", "strip", "lstrip", "rstrip", "lower", "upper", "startswith", "endswith", "replace", "format",
+                "partition", "rpartition", "isdigit", "zfill", "title", "capitalize", "find", "index", "count"):
+            plain = []
+            ok = True
+            for a in args:
+                if isinstance(a, Const):
+                    plain.append(a.v)
+                elif isinstance(a, (ListObj, TupleV)) and all(isinstance(x, Const) for x in a.items):
+                    plain.append([x.v for x in a.items] if isinstance(a, ListObj) else tuple(x.v for x in a.items))
+                elif isinstance(a, IterV) and name == "join":
+                    items = a.items[a.pos:]
+                    if not all(isinstance(x, Const) for x in items):
+                        ok = False
+                        break
+                    a.drain()
+                    plain.append([x.v for x in items])
+                else:
+                    ok = False
+                    break
+            if ok:
+                try:
+                    r = getattr(obj.v, name)(*plain)
+                except (TypeError, ValueError, IndexError) as ex:
+                    raise AbstractRaise(type(ex).__name__, node, detail=str(ex))
+                v = _from_py(r)
+                if v is not None:
+                    return v
         return self.w.call_method(self, obj, name, args, kwargs, node)
 
     def exc_name(self, exc):
